@@ -310,7 +310,10 @@ class RelayWorld:
             name = getattr(t.get_coro(), "__qualname__", "?")
             if name.split(".")[0] in ("Periodic", "StatsCollector", "BaseGarbageCollector"):
                 continue
-            if name in ("Periodic._run",):
+            if name in ("Periodic._run",) or name.startswith("AsyncAdapt_"):
+                # (SQLAlchemy's own pool housekeeping after an injected engine error, e.g.
+                #  AsyncAdapt_aiosqlite_connection._terminate_graceful_close, is not a task created
+                #  on behalf of a websocket connection)
                 continue
             leftover.append(name)
         self.final["leftover_tasks"] = leftover
